@@ -20,7 +20,7 @@ RULE = (
 )
 ASSUMPTIONS = [
     "raw box |raw| <= 50 as stated by the property; softmax_adjust >= 1e-3 for knot monotonicity (0 switches the documented floor off)",
-    "leaky-relu planar slopes in (0, 1]",
+    "leaky-relu planar slopes in (0, 3] (the documentation asks for a positive float)",
 ]
 V = [-50.0, -5.0, -0.5, 0.0, 0.5, 5.0, 50.0]
 MAGS = [1e-6, 1e-3, 1.0, 1e3, 1e6]
@@ -29,14 +29,14 @@ MAGS = [1e-6, 1e-3, 1.0, 1e3, 1e6]
 def bounds(tier):
     return {"V": V, "full_product_up_to": 5, "constructor_magnitudes": MAGS, "dtypes": ["float64", "float32"],
             "objects": ["Affine/Scale scale (<=3 entries)", "TriangularAffine dim 2 (diag + off-diagonal)", "StudentT df", "mixture weights (3)",
-                        "spline widths/heights (knots 1-3) and derivatives (knots<=3)", "Planar (w,u,b) dim 2 tanh / leaky {0.1,0.5,1}",
+                        "spline widths/heights (knots 1-3) and derivatives (knots<=3)", "Planar (w,u,b) dim 2 tanh / leaky {0.1,0.5,1,3}",
                         "WeightNormalization 2x2", "flows default transformer scale (min_scale)", "BNAF block diagonal weights"],
             "second_state": "the grid is also applied on top of a perturbed (non-initial) state",
             "exhaustive_within_bounds": True}
 
 
 KINDS = ["affine", "scale", "triaffine", "studentt", "mixture", "rqs_pos", "rqs_deriv", "planar_tanh", "planar_leaky0.1", "planar_leaky0.5",
-         "planar_leaky1.0", "weightnorm", "minscale", "bnaf_linear"]
+         "planar_leaky1.0", "planar_leaky3.0", "weightnorm", "minscale", "bnaf_linear"]
 
 
 def enumerate_cases(tier, seed):
